@@ -145,6 +145,9 @@ Qed.
 Lemma notify_all_pending ws : forall s self, pending (notify_all s self ws) = pending s.
 Proof. induction ws as [|w rest IH]; intros s self; cbn [notify_all]; [reflexivity|]. rewrite IH. apply deliver_sys_pending. Qed.
 
+Lemma restart_all_pending cs : forall s self, pending (restart_all s self cs) = pending s.
+Proof. induction cs as [|c rest IH]; intros s self; cbn [restart_all]; [reflexivity|]. rewrite IH. apply deliver_sys_pending. Qed.
+
 Lemma next_serial_pending s : pending (fst (next_serial s)) = pending s. Proof. reflexivity. Qed.
 Lemma provide_pending s t : pending (fst (provide s t)) = pending s. Proof. reflexivity. Qed.
 
@@ -310,6 +313,7 @@ Proof.
   - intros H; inversion H; subst. apply bal_quiet; try reflexivity. apply deliver_sys_pending.
   - destruct (escalate s u r) as [[s1 o1] p1] eqn:E. intros H; inversion H; subst. apply escalate_bal in E.
     unfold bal in *. rewrite sentc_cons, handc_cons, deadc_cons. cbn [sent1 hand1 dead1]. lia.
+  - intros H; inversion H; subst. apply bal_quiet; try reflexivity. apply restart_all_pending.
 Qed.
 
 Lemma on_accident_bal s u r snd s' o p : on_accident roles s u r snd = (s', o, p) -> bal s s' o 0.
@@ -356,14 +360,15 @@ Proof.
   - (* SRestart *) destruct (a_st a); try (intros H; inversion H; subst; apply bal_refl).
     apply bind_bal.
     + intros s1 o1 p1 E. apply handle_life_bal in E; [|intros n; discriminate].
-      unfold bal in *. rewrite pending_upd_actor in E by keep. exact E.
+      unfold bal in *. rewrite deliver_sys_pending in E. rewrite pending_upd_actor in E by keep. exact E.
     + intros s1 s2 o2 p2. destruct (get s1 u) as [a2|]; [|intros H; inversion H; subst; apply bal_refl].
       destruct (terminate_all s1 (a_tok a2) (a_children a2) false) as [s3 o3] eqn:E3.
       destruct (try_restarted roles s3 u (e_snd e)) as [[s4 o4] p4] eqn:E4. intros H; inversion H; subst.
       apply terminate_all_bal in E3. apply try_restarted_bal in E4. unfold bal in *.
       rewrite sentc_app, handc_app, deadc_app. lia.
   - (* SAccident *) apply on_accident_bal.
-  - (* SWatch *) destruct (st_ge_terminating (a_st a)); intros H; inversion H; subst; apply bal_quiet; try reflexivity.
+  - (* SWatch *) destruct (e_snd e =? a_parent a)%Z; [intros H; inversion H; subst; apply bal_refl|].
+    destruct (st_ge_terminating (a_st a)); intros H; inversion H; subst; apply bal_quiet; try reflexivity.
     + apply deliver_sys_pending.
     + apply pending_upd_actor; keep.
   - (* SUnwatch *) intros H; inversion H; subst. apply bal_quiet; try reflexivity. apply pending_upd_actor; keep.
